@@ -383,6 +383,33 @@ def sampled_table():
         ("treepushval", ["i", ANY], {1: 1}, none, lambda cats: cats[1] == "r"),
         ("treerelease", ["i"], {}, lambda r, s: [r.below(s[0] - 1)], always),
         ("treemap", [ANY], {}, none, always),
+        # extension rounds
+        ("algfind", ["lc", "c"], {1: 1}, lambda r, s: [r.below(s[0] + 1)], always),
+        ("algindexof", ["lc", "c"], {1: 1}, lambda r, s: [r.below(s[0] + 1)], always),
+        ("algfindif", ["lc"], {}, lambda r, s: [r.below(s[0] + 1)], always),
+        ("algfindby", ["lc"], {}, lambda r, s: [r.below(s[0] + 1)], always),
+        ("algmapiter", ["i"], {}, lambda r, s: [r.below(2) for _ in range(s[0])], always),
+        ("algmapiter2", ["i"], {}, lambda r, s: [r.below(2) for _ in range(s[0])], always),
+        ("algseqiter", ["i"], {}, lambda r, s: [r.below(2) for _ in range(s[0])], always),
+        ("continsert", ["i", ANY], {1: 1}, lambda r, s: [r.below(s[0] + 1)], lambda cats: cats[1] == "r"),
+        ("setunion", ["lc", "lc"], {}, lambda r, s: [0], never),
+        ("setdiff", ["lc", "lc"], {}, lambda r, s: [0], never),
+        ("mapvalcopy", ["lc"], {}, none, never),
+        ("atopt", ["lc"], {}, lambda r, s: [r.below(s[0] + 1)], always),
+        ("indexmapget", ["i"], {}, lambda r, s: [r.below(s[0] + 4)], always),
+        ("eithseqerr", [ANY], {}, lambda r, s: [0 if r.chance(1, 6) else 1 for _ in range(s[0])], always),
+        ("treectortree", ["r", "r"], {0: 1}, none, always),
+        ("treeassign", ["i", "i", "r", "r"], {0: 1, 2: 1}, none, always),
+        ("treepopback", ["i"], {}, none, always),
+        ("treepopfront", ["i"], {}, none, always),
+        ("treeerase", ["i"], {}, lambda r, s: [r.below(s[0] - 1)], always),
+        ("treeclear", ["i"], {}, none, always),
+        ("treesort", ["i"], {}, none, always),
+        ("treeinsertval", ["i", ANY], {1: 1}, lambda r, s: [r.below(s[0])], lambda cats: cats[1] == "r"),
+        ("gridfill", ["i"], {}, none, always),
+        ("gridassign", ["i", ANY], {}, none, lambda cats: cats[1] == "r"),
+        ("joinself", ["lc"], {}, none, never),
+        ("algmaplist", [ANY], {}, none, always),
     ]
 
 
@@ -407,7 +434,8 @@ def sampled_lines(rng, count):
                 mask = [1 if rng.chance(1, 5) else 0 for _ in range(ln)]
                 out.append("eithfirst " + rng.choice("TM") + " 0 " + " ".join(map(str, mask)))
             else:
-                out.append("parserep " + rng.choice("TM") + f" 0 {rng.range(4, 8)}")
+                name = rng.choice(["parserep", "parsesep", "parserepplus", "optsmany", "alggenerate", "eithloop"])
+                out.append(name + " " + rng.choice("TM") + f" 0 {rng.range(4, 8)}")
             continue
         name, cat_sets, fixed, par, mo = rows[k]
         cats = [rng.choice(list(cs)) for cs in cat_sets]
